@@ -80,6 +80,10 @@ func New(kind, project, pkg, name string) (*Label, error) {
 	if strings.ContainsAny(project, ":") {
 		return nil, errors.New("project may not contain ':'")
 	}
+	if strings.Contains(project, "//") || strings.HasSuffix(project, "/") {
+		// The project of a printed label ends where the first "//" begins.
+		return nil, errors.New("project may not contain '//' or end with '/'")
+	}
 	pkg, err := Clean(pkg)
 	if err != nil {
 		return nil, err
